@@ -12,7 +12,9 @@ import (
 
 	"github.com/anishathalye/porcupine"
 	"github.com/google/badwolf/storage"
+	"github.com/google/badwolf/bql/table"
 	"github.com/google/badwolf/storage/memory"
+	"github.com/google/badwolf/tools/vcli/bw/server"
 	"github.com/google/badwolf/triple"
 	"github.com/google/badwolf/xverif/sim"
 )
@@ -45,6 +47,7 @@ type ConcCase struct {
 	Preempt int        `json:"preempt"`
 	PMean   int        `json:"pmean"`
 	WPref   bool       `json:"wpref"`
+	Focus   int        `json:"focus,omitempty"` // >0: one extra preemption within this many steps of the start of every write
 	Tape    []uint32   `json:"tape,omitempty"` // explicit schedule (replay / minimised)
 }
 
@@ -81,11 +84,16 @@ func (h *concHarness) Gen(r *Rand, tier string, clean bool) any {
 		lo := Anchors[1+r.Intn(3)].UnixNano()
 		c.Opts = append(c.Opts, OptSpec{Lo: &lo})
 	}
-	ncl := r.Range(2, 4)
+	// second configuration: some clients talk BQL (server.BQL) to the same store
+	bql := r.Chance(0.35)
+	ncl, maxTotal := r.Range(2, 4), 12
+	if tier == "thorough" && r.Chance(0.3) {
+		ncl, maxTotal = r.Range(3, 5), 16
+	}
 	total := 0
 	for i := 0; i < ncl; i++ {
 		n := r.Range(1, 4)
-		if total+n > 12 {
+		if total+n > maxTotal {
 			n = 1
 		}
 		total += n
@@ -93,6 +101,12 @@ func (h *concHarness) Gen(r *Rand, tier string, clean bool) any {
 		for j := 0; j < n; j++ {
 			op := ConcOp{G: r.Intn(ng), Opt: -1}
 			switch x := r.Intn(100); {
+			case x < 6 && bql:
+				op.K = "qinsert"
+			case x < 10 && bql:
+				op.K = "qdelete"
+			case x < 18 && bql:
+				op.K = "qselect"
 			case x < 25:
 				op.K = "add"
 			case x < 45:
@@ -103,6 +117,11 @@ func (h *concHarness) Gen(r *Rand, tier string, clean bool) any {
 				op.K = "lookup"
 			case x < 91:
 				op.K = "names"
+			case bql:
+				// a BQL statement resolves its graph by name and then works on the handle: two store
+				// operations. With graphs created / dropped concurrently that has no single
+				// linearization point, so these runs keep the set of graphs fixed.
+				op.K = "exist"
 			case x < 94:
 				op.K = "new"
 			case x < 97:
@@ -111,7 +130,7 @@ func (h *concHarness) Gen(r *Rand, tier string, clean bool) any {
 				op.K = "del"
 			}
 			switch op.K {
-			case "add", "rm":
+			case "add", "rm", "qinsert", "qdelete":
 				for _, k := range pickDistinct(r, len(c.U), r.Range(1, 3)) {
 					op.Ts = append(op.Ts, k)
 				}
@@ -137,6 +156,9 @@ func (h *concHarness) Gen(r *Rand, tier string, clean bool) any {
 	c.Preempt = r.Intn(6)
 	c.PMean = []int{10, 30, 80}[r.Intn(3)]
 	c.WPref = r.Bool()
+	if r.Bool() {
+		c.Focus = []int{20, 60, 150}[r.Intn(3)]
+	}
 	return c
 }
 
@@ -239,6 +261,7 @@ type linIn struct {
 	lc   *LookupCall
 	opt  *OptSpec
 	anyResult bool // result not judged (only closure etc.)
+	byName    bool // the graph is resolved by name when the operation takes effect (BQL statements)
 }
 
 type linOut struct {
@@ -281,6 +304,12 @@ func (h *concHarness) model(c *ConcCase, uni []*triple.Triple) porcupine.Model {
 			s := state.(linState)
 			in := input.(linIn)
 			out := output.(linOut)
+			if in.byName {
+				if s.bound[in.name] < 0 {
+					return out.err, s // the statement names a graph that does not exist
+				}
+				in.gid = int(s.bound[in.name])
+			}
 			switch in.k {
 			case "new":
 				if s.bound[in.name] >= 0 {
@@ -489,7 +518,48 @@ func (h *concHarness) Run(t *testing.T, ci any) *Outcome {
 								}
 							}
 						}
+					case "qinsert", "qdelete":
+						var specs []TSpec
+						for _, ti := range op.Ts {
+							specs = append(specs, c.U[ti])
+							ev.in.mask |= 1 << uint(ti)
+						}
+						stmt := &Stmt{Kind: map[string]string{"qinsert": "insert", "qdelete": "delete"}[op.K], Graphs: []string{name}, Data: specs}
+						ev.in.byName = true
+						ev.in.k = map[string]string{"qinsert": "add", "qdelete": "rm"}[op.K]
+						if c.Focus > 0 {
+							sim.PreemptSoon(c.Focus * 4)
+						}
+						_, err := server.BQL(ctx, stmt.Text(), st, c.Cap, 10)
+						ev.out.err = err != nil
+						ev.ret = sim.Stamp()
+					case "qselect":
+						ev.in.byName = true
+						ev.in.k = "lookup"
+						ev.in.lc = &LookupCall{M: MTriples}
+						tbl, err := server.BQL(ctx, "SELECT ?s, ?p, ?o FROM "+name+" WHERE { ?s ?p ?o };", st, c.Cap, 10)
+						ev.ret = sim.Stamp()
+						ev.out.err = err != nil
+						if err == nil {
+							var ks []string
+							for _, row := range tbl.Rows() {
+								if row["?s"] == nil || row["?p"] == nil || row["?o"] == nil || row["?s"].N == nil || row["?p"].P == nil {
+									note("malformed-row:qselect")
+									continue
+								}
+								ob, e := cellObject(row["?o"])
+								if e != nil {
+									note("malformed-row:qselect")
+									continue
+								}
+								ks = append(ks, nodeKey(row["?s"].N)+"\t"+predKey(row["?p"].P)+"\t"+objKey(ob))
+							}
+							ev.out.keys = strings.Join(sortedCopy(ks), "\n")
+						}
 					case "add":
+						if c.Focus > 0 {
+							sim.PreemptSoon(c.Focus)
+						}
 						var batch []*triple.Triple
 						for _, ti := range op.Ts {
 							batch = append(batch, uni[ti])
@@ -499,6 +569,9 @@ func (h *concHarness) Run(t *testing.T, ci any) *Outcome {
 						ev.out.err = err != nil
 						ev.ret = sim.Stamp()
 					case "rm":
+						if c.Focus > 0 {
+							sim.PreemptSoon(c.Focus)
+						}
 						var batch []*triple.Triple
 						for _, ti := range op.Ts {
 							batch = append(batch, uni[ti])
@@ -639,6 +712,18 @@ func (h *concHarness) Run(t *testing.T, ci any) *Outcome {
 	}
 	o.Sample = map[string]any{"history": strings.Split(renderHistory(events), "\n"), "steps": res.Steps, "decisions": res.Decisions, "preempts": res.Preempts, "case": c2}
 	return o
+}
+
+func cellObject(c *table.Cell) (*triple.Object, error) {
+	switch {
+	case c.N != nil:
+		return triple.NewNodeObject(c.N), nil
+	case c.P != nil:
+		return triple.NewPredicateObject(c.P), nil
+	case c.L != nil:
+		return triple.NewLiteralObject(c.L), nil
+	}
+	return nil, fmt.Errorf("cell holds no object")
 }
 
 func descOp(c *ConcCase, op ConcOp) string {
